@@ -1,6 +1,6 @@
 ------------------------------ MODULE LeakEval ------------------------------
 (* (V) binding of Leak.tla to observations of the implementation.  One record = one history:                            *)
-(*   kind "key":    start kind + steps [c, ok, os, oo, hs, ho]: the call, whether it was performed (an exception of any  *)
+(*   kind "key":    start kind + steps [c, a, ok, os, oo, hs, ho]: the call, its optional arguments (a record of ArgSpace), whether it was performed (an exception of any  *)
 (*                  type = refused), the encodings of the subject's own key (os) and of other keys in play (oo) found in *)
 (*                  the call's output, and (hs, ho) found in the subject's object graph, pickle and deep copy afterwards *)
 (*   kind "wallet": steps [c, ok, items [priv, signed, own, other]]                                                      *)
@@ -19,7 +19,8 @@ KWalk(D, s, steps, i) ==
     ELSE LET e == steps[i]
              r == Act(D, s, e.c)
              s2 == IF e.ok THEN r.st ELSE s
-         IN IF e.c \notin CallsOf(s) /\ e.c # "encrypt" THEN [v |-> "call-not-in-specification", at |-> i, exp |-> <<>>]
+         IN IF (e.c \notin CallsOf(s) /\ e.c # "encrypt") \/ e.a \notin ArgSpace(e.c)
+            THEN [v |-> "call-not-in-specification", at |-> i, exp |-> <<>>]
             ELSE IF e.ok /\ r.view = "public" /\ (ToSet(e.os) # r.out \/ Len(e.oo) # 0)
                  THEN [v |-> "public-view-carries-private-key", at |-> i, exp |-> SetToSeq(r.out)]
             ELSE IF ~s2.private /\ (ToSet(e.hs) # Held(s2) \/ Len(e.ho) # 0)
